@@ -67,11 +67,25 @@ def refactorings():
         "create_joint_distribution": lambda m, r: (pm.create_joint_distribution(m, r.sample(list(m.random_variables.iiv.names), 2)), {}),
         "split_joint_distribution": lambda m, r: (pm.split_joint_distribution(m), {}),
         "replace_fixed_thetas": lambda m, r: _two(pm.fix_parameters(m, [r.choice([p.name for p in m.parameters if p.name not in set(m.random_variables.parameter_names)])]), pm.replace_fixed_thetas),
-        "replace_non_random_rvs": lambda m, r: _two(pm.fix_parameters_to(m, {r.choice([d.variance.name for d in m.random_variables.etas if len(d.names) == 1 and d.variance.is_symbol()]): 0}), pm.replace_non_random_rvs),
+        "replace_non_random_rvs": lambda m, r: _two(_fix_a_variance(m, r), pm.replace_non_random_rvs),
         "update_source": lambda m, r: (m.update_source(), {}),
         "simplify_statements": lambda m, r: (_simplify_all(m), {}),
+        "simplify_expression_probe": _simplify_probe,
     }
     return R
+
+
+def _fix_a_variance(m, r):
+    """Precondition of replace_non_random_rvs: a variance fixed to zero (that effect is not random any more) - or, as a
+    control, one fixed at a non-zero value (still random: the refactoring must leave it alone)."""
+    import pharmpy.modeling as pm
+
+    cands = [d.variance.name for d in list(m.random_variables.etas) + list(m.random_variables.epsilons)
+             if len(d.names) == 1 and d.variance.is_symbol()]
+    name = r.choice(cands)
+    if r.random() < 0.5:
+        return pm.fix_parameters_to(m, {name: 0})
+    return pm.fix_parameters(m, [name])
 
 
 def _two(before, fn):
@@ -90,6 +104,34 @@ def _simplify_all(m):
         else:
             new.append(s)
     return m.replace(statements=Statements(tuple(new)))
+
+
+def _simplify_probe(m, r):
+    """(model with extra statements built from sign-sensitive expressions of its parameters, the same model with those
+    statements simplified).  simplify_expression may use the parameters' bounds; the values must not change for any
+    parameter value within the bounds."""
+    import pharmpy.modeling as pm
+    import sympy
+    from pharmpy.model import Assignment, Statements
+
+    rvp = set(m.random_variables.parameter_names)
+    thetas = [p.name for p in m.parameters if p.name not in rvp]
+    forms = [lambda x, y: sympy.Abs(x), lambda x, y: sympy.sqrt(x**2), lambda x, y: sympy.sign(x) * y,
+             lambda x, y: sympy.Abs(x * y), lambda x, y: (x**2) ** sympy.Rational(1, 2) + sympy.Abs(y),
+             lambda x, y: sympy.Abs(x) / (1 + sympy.Abs(y)), lambda x, y: sympy.sqrt((x - y) ** 2)]
+    extra_a, extra_b = [], []
+    for k in range(r.randint(2, 4)):
+        x = sympy.Symbol(r.choice(thetas))
+        y = sympy.Symbol(r.choice(thetas))
+        e = r.choice(forms)(x, y)
+        sym = sympy.Symbol(f"SPROBE{k}")
+        extra_a.append(Assignment.create(sym, e))
+        extra_b.append(Assignment.create(sym, pm.simplify_expression(m, e)))
+    sts = list(m.statements)
+    i = next((j for j, s in enumerate(sts) if not isinstance(s, Assignment)), len(sts))
+    a = m.replace(statements=Statements(tuple(sts[:i] + extra_a + sts[i:])))
+    b = m.replace(statements=Statements(tuple(sts[:i] + extra_b + sts[i:])))
+    return (a, b), {"__targets__": [f"SPROBE{k}" for k in range(len(extra_a))]}
 
 
 def run_case(rng, idx, tier):
@@ -138,6 +180,10 @@ def run_case(rng, idx, tier):
     recs = denote.records_of(model)
     a = denote.IRDen(model)
     b = denote.IRDen(new)
+    extra_targets = ()
+    if isinstance(mapping, dict) and "__targets__" in mapping:
+        mapping = dict(mapping)
+        extra_targets = tuple(mapping.pop("__targets__"))
     try:
         if mapping is None:
             # greekify renames parameters and random variables in an undeclared way: compare structure only
@@ -151,7 +197,7 @@ def run_case(rng, idx, tier):
                 if hasattr(s, "symbol") and hasattr(t, "symbol"):
                     stm[s.symbol.name] = t.symbol.name
             mapping.update({k: v for k, v in stm.items() if k != v})
-        j = denote.compare_models(a, b, recs, random.Random(rng.random()), K, c, rename=mapping)
+        j = denote.compare_models(a, b, recs, random.Random(rng.random()), K, c, rename=mapping, extra_targets=extra_targets)
         c.nontrivial = j > 0
         c.hit("held")
     except denote.Mismatch as mm:
